@@ -51,7 +51,8 @@ RULE = (
     "no port) plus a larger ISO-TP set (3 values per field, 2 all-present vectors) x 2 representatives. "
     "host:port: all hosts x ports x default_port {None,0,13400} (+ every port 0..65535 for 1 (quick) / 4 "
     "(thorough) hosts). builders: real HSFZDiscoverer.probe coroutine, AST-extracted ISO-TP block and "
-    "doip:// f-strings with boundary addresses/ports/timeouts. Ranges: numerals "
+    "doip:// f-strings with boundary addresses/ports/timeouts (hsfz ack_timeout: 20 floats incl. values whose product with 1000 falls "
+    "just below/above a whole number and non-ms values, plus every k/1000 s for k=0..5000). Ranges: numerals "
     "{0,1,7,0x10,0o7,0b11,255,0xffff}; token = numeral or a-b (72 tokens, 7 of them 'wide' = more than 4096 "
     "elements, 28 reversed); unravel/Ranges: all expressions of <=2 tokens over all 72 tokens, all 3-token "
     "expressions over the 65 non-wide tokens (thorough: plus over 65 + the wide tokens 0-0xffff, 0x10-0xffff, "
@@ -75,7 +76,8 @@ ASSUMPTIONS = [
     "the DoIP discoverer only talks IPv4 (AF_INET UDP socket in gather_doip_details: an IPv6 host aborts "
     "the scanner before any URI is emitted), so its f-strings are exercised with names and IPv4 only; "
     "partial doip:// URLs (no target_addr/src_addr) are completed with 0 for the transport-acceptance step",
-    "HSFZ probe timeouts are multiples of 1 ms; the emitted ack_timeout may be truncated or rounded (< 1 ms off)",
+    "HSFZ probe: the emitted ack_timeout must be the whole number of milliseconds nearest to the float passed "
+    "(computed exactly with fractions; no half-way values are enumerated)",
     "the ISO-TP URI block and the doip:// f-strings are cut out of the current source by AST; if they "
     "cannot be located they are listed under 'uncovered'",
     "pydantic, urllib and ipaddress are trusted",
@@ -721,7 +723,14 @@ def run_uri_generic(res: Result) -> None:
 # ---------------------------------------------------------------------------------------------
 # section: scanner URI builders
 
-HSFZ_ACKS: list[float | None] = [None, 0.001, 0.25, 0.5, 0.999, 1.0, 1.5, 2.0, 10.0]
+# exact ones, plus values v where v * 1000 is not representable and lands just below / above a whole number
+# (truncation and rounding differ for the first group), plus values that are no whole number of ms
+HSFZ_ACKS: list[float | None] = [
+    None, 0.001, 0.25, 0.5, 0.999, 1.0, 1.5, 2.0, 10.0,
+    1.001, 1.023, 2.002, 4.004, 0.57, 8.2, 0.29, 1.1,
+    0.0004, 0.0006, 1.2344, 1.2346,
+]  # fmt: skip
+HSFZ_MS_SWEEP = 5001  # every k/1000 s, k = 0..5000, for one (host, port, src, dst)
 
 
 def check_hsfz_probe(res: Result, loop: Any, host: str, port: int, src: int, dst: int, ack: float | None) -> None:
@@ -761,11 +770,12 @@ def check_hsfz_probe(res: Result, loop: Any, host: str, port: int, src: int, dst
     for name, want in (("src_addr", src), ("dst_addr", dst)):
         if getattr(cfg, name) != want:
             res.violate(f"C20|{site}|{name}|wrong-value", f"{raw!r}: {name} = {getattr(cfg, name)!r}, expected {want:#x}", rd)
-    if abs(cfg.ack_timeout - want_ack * 1000) >= 1:
-        sub = "sub-second" if want_ack < 1 else "fractional"
+    want_ms = M.nearest_ms(want_ack)
+    if cfg.ack_timeout != want_ms:
+        sub = "off-by-1ms" if abs(cfg.ack_timeout - want_ms) == 1 else ("sub-second" if want_ack < 1 else "fractional")
         res.violate(
             f"C20|{site}|ack_timeout|{sub}",
-            f"probe(..., ack_timeout={want_ack}) emits {raw!r}: transport would use {cfg.ack_timeout} ms instead of {want_ack * 1000:g} ms",
+            f"probe(..., ack_timeout={want_ack!r}) emits {raw!r}: transport would use {cfg.ack_timeout} ms, nearest to the value passed is {want_ms} ms",
             rd,
         )
 
@@ -773,6 +783,9 @@ def check_hsfz_probe(res: Result, loop: Any, host: str, port: int, src: int, dst
 def run_hsfz(res: Result, hosts: list[str]) -> None:
     loop = asyncio.new_event_loop()
     try:
+        if not hosts:  # millisecond sweep
+            for k in range(HSFZ_MS_SWEEP):
+                check_hsfz_probe(res, loop, "192.168.0.1", 6801, 0xF4, 0x10, k / 1000)
         for h in hosts:
             for p in (0, 1, 6801, 65535):
                 for src in (0, 0xF4, 0xFF):
@@ -1139,6 +1152,7 @@ def items(tier: str, seed: int) -> list[tuple[Any, ...]]:
     out.append(("uri-generic",))
     for h in HOSTS:
         out.append(("hsfz", [h]))
+    out.append(("hsfz", []))
     out.append(("isotp",))
     out.append(("doip",))
     # ranges 1-D
